@@ -147,6 +147,10 @@ func pathClean(p string) string {
 func times(r *simkit.RNG, n *TNode) {
 	n.Sec = 1200000000 + int64(r.Intn(400000000))
 	n.Nsec = simkit.Pick(r, fracs)
+	if r.Chance(1, 15) {
+		// the epoch, its first second, the 32-bit limits, far future
+		n.Sec = simkit.Pick(r, []int64{0, 0, 1, 2147483647, 2147483648, 4102444800})
+	}
 }
 
 func genTree(r *simkit.RNG, sc *Scenario, k *knobs) {
@@ -497,7 +501,7 @@ func genRuns(r *simkit.RNG, sc *Scenario, k *knobs, profile string) {
 		sc.Opts.Ignore = true
 	}
 	if k.outLinks && r.Chance(1, 6) {
-		sc.Opts.Allow = []string{simkit.Pick(r, []string{"/w/ext", "/w/ext/dir", "../ext/file"})}
+		sc.Opts.Allow = []string{simkit.Pick(r, []string{"/w/ext", "/w/ext/dir", "../ext/file", ""})}
 	}
 	run := func() PackRun {
 		return PackRun{Spelling: "abs", Cwd: "/cwd"}
